@@ -11,6 +11,8 @@ pub fn enum_make_query(_s: u64) -> Vec<String> {
     for flag in ["f", "t"] { for id in [0usize, 1, 7, 1000] { for ctor in ["make_query", "parse_query", "parse_query_ground", "start_query", "timer"] {
         v.push(format!("flag={};id={};ctor={}", flag, id, ctor));
     } } }
+    // the timer armed by solve() must not outlive the call (it would stop a LATER query): checked once, it costs 1.2 s
+    v.push("flag=f;id=0;ctor=solve_exhausted".to_string());
     v
 }
 
@@ -31,6 +33,17 @@ pub fn check_make_query(case: &str) -> Result<(), String> {
         let stopped = query_stopped();
         cancel_timer(t);
         if stopped { return Err("stop flag of an earlier (timed-out) query still set after start_query_timer(); solve() would report a timeout".into()); }
+        return Ok(());
+    }
+    if field(case, "ctor") == "solve_exhausted" {
+        // ask a query with solve() until it says "No more."; a second later no timer of that call may fire
+        let query = parse_query("p($X)").unwrap();
+        let sn = make_base_node(std::rc::Rc::new(query), &kb);
+        let mut answers = vec![];
+        for _ in 0..3 { let a = solve(std::rc::Rc::clone(&sn)); let done = a == "No more."; answers.push(a); if done { break; } }
+        start_query();
+        std::thread::sleep(std::time::Duration::from_millis(1200));
+        if query_stopped() { return Err(format!("a timer armed by solve() (answers {:?}) fired after the call had returned: a later query would be stopped", answers)); }
         return Ok(());
     }
     if field(case, "ctor") == "parse_query_ground" {
